@@ -59,6 +59,8 @@ def main():
                 if time.time() - t1 > budget:
                     break
             out['functions'][fn] = n
+            for extra_fn in h.get('covers', []):
+                out['functions'][extra_fn] = out['functions'].get(extra_fn, 0) + n
             out['evaluations'] += n
             out['distinct'] += len(seen)
             out['bounds'][fn] = h.get('bound', '')
